@@ -485,7 +485,9 @@ static void c19_after_keyed(int t, unsigned c, int was_settled)
         m->settled = 1;
         m->hist[1].n = 0; m->hist[2].n = 0;
         PROBE("c19_rehash_completed_by_keyed_ops");
-    } else if (m->keyed > m->budget) {
+    } else if (m->keyed >= m->budget) {
+        /* every keyed operation advances the sweep by at least one bucket, so after as many operations as there
+         * were buckets the rehash has finished */
         VIOLP("C19", "completion_bound", "rehash still pending after %llu keyed operations (budget %llu = buckets in force at the resize)",
               (unsigned long long)m->keyed, (unsigned long long)m->budget);
     }
